@@ -23,23 +23,25 @@ theorem rfc1459_table_ok :
 
 /-! ### the simulation theorem -/
 
-/-- **view_refines** — for every finite run of the reference server from the state where the bot has
-just registered, the bot's view equals the projection of the server state (`Coupled`: own nick; the
-channels the bot is on; for each of them members, ops, halfops, voices, topic, modes, bans; the hostmask of
-every nick the bot can see; the bot's own prefix once it is on a channel), and the server state is
-well-formed.  Hypotheses: a valid configuration with `multi-prefix` negotiated, and `Act.ok` for every
-action, i.e. no mode argument that `int()` rewrites (`+k 0123`, `+l 007`) — the known finding
-C10-mode-arg-int, see `view_refines_fails_intarg` below.
+/-- **view_refines** — for every finite run of the reference server from the state where the bot has just
+registered — the server acting, the bot receiving what the server emits, the server queueing the WHO / MODE /
+MODE +b queries the bot sends and answering them later, in order (`serve`), or sending such replies
+unsolicited — the bot's view is coupled to the server state (`Coupled`):
+own nick; the set of joined channels; per channel users, ops and topic exactly; halfops and voices exactly
+with multi-prefix and otherwise never wrong; modes a sub-map of the server's and bans a subset, both exact
+once the corresponding reply has reached the bot since it joined; the hostmask of every user whose current
+hostmask the server has shown to the bot; the bot's own prefix once it is on a channel.
+No assumption on the negotiated capabilities.  Hypothesis: `Act.ok` for every action, i.e. no mode argument
+that `int()` rewrites (`+k 0123`, `+l 007`) — the known finding C10-mode-arg-int, see `view_refines_fails_intarg`.
 
 Full statement (false on the pinned tree, kept visible):
-  `∀ cfg acts, cfg.valid → cfg.multiPrefix → let r := run (Srv.init cfg) (Bot.init cfg.botNick cfg.botIdent) acts; Coupled r.1 r.2`
+  `∀ cfg acts, cfg.valid → let r := run (Srv.init cfg) (Bot.init cfg.botNick cfg.botIdent) acts; Coupled r.1 r.2`
 What is missing in the proved statement is exactly the hypothesis `∀ a ∈ acts, a.ok`. -/
-theorem view_refines_partial (cfg : Cfg) (hv : cfg.valid = true) (hmp : cfg.multiPrefix = true) (acts : List Act)
-    (hok : ∀ a ∈ acts, a.ok) :
+theorem view_refines_partial (cfg : Cfg) (hv : cfg.valid = true) (acts : List Act) (hok : ∀ a ∈ acts, a.ok) :
     SrvWF (run (Srv.init cfg) (Bot.init cfg.botNick cfg.botIdent) acts).1 ∧
     Coupled (run (Srv.init cfg) (Bot.init cfg.botNick cfg.botIdent) acts).1
       (run (Srv.init cfg) (Bot.init cfg.botNick cfg.botIdent) acts).2 :=
-  run_inv acts _ _ (wf_init cfg hv hmp) (coupled_init cfg hv) hok
+  run_inv acts _ _ (wf_init cfg hv) (coupled_init cfg hv) hok
 
 /-- one more step from any reachable pair of states (the inductive step, usable on its own) -/
 theorem view_step (s : Srv) (b : Bot) (hw : SrvWF s) (hc : Coupled s b) (a : Act) (ha : a.ok) :
@@ -64,10 +66,28 @@ theorem view_channels {s : Srv} {b : Bot} (hc : Coupled s b) (k : Str) :
     | none => rw [hb] at h; simp only [ChanRel] at h; simp [h]
     | some ch => rw [hb] at h; simp only [ChanRel] at h; simp [h.1]
 
-/-- members, status flags, topic, modes and bans of every channel the bot is on -/
+/-- the record of every channel the bot is on (see `ChanMatches`) -/
 theorem view_channel {s : Srv} {b : Bot} (hc : Coupled s b) {k : Str} {sc : SChan} (hs : aget s.chans k = some sc)
-    (hb : sc.has s.botKey = true) : ∃ ch, aget b.channels k = some ch ∧ ChanMatches sc ch :=
+    (hb : sc.has s.botKey = true) :
+    ∃ ch, aget b.channels k = some ch ∧ ChanMatches s.cfg.multiPrefix (s.mSynced k) (s.bSynced k) sc ch :=
   view_channel' hc hs hb
+
+/-- with multi-prefix, and once the MODE and MODE +b queries for the channel were answered, the bot's record
+is the server's: members, ops, halfops, voices, topic, modes, bans -/
+theorem view_channel_full {s : Srv} {b : Bot} (hc : Coupled s b) {k : Str} {sc : SChan} (hs : aget s.chans k = some sc)
+    (hb : sc.has s.botKey = true) (hmp : s.cfg.multiPrefix = true) (hms : k ∈ s.modesSynced) (hbs : k ∈ s.bansSynced) :
+    ∃ ch, aget b.channels k = some ch ∧
+      (∀ x, x ∈ ch.users ↔ ∃ f, (x, f) ∈ sc.members) ∧
+      (∀ x, x ∈ ch.ops ↔ ∃ f, (x, f) ∈ sc.members ∧ f.o = true) ∧
+      (∀ x, x ∈ ch.halfops ↔ ∃ f, (x, f) ∈ sc.members ∧ f.h = true) ∧
+      (∀ x, x ∈ ch.voices ↔ ∃ f, (x, f) ∈ sc.members ∧ f.v = true) ∧
+      ch.topic = sc.topic ∧ (∀ m, aget ch.modes m = aget sc.modes m) ∧ (∀ x, x ∈ ch.bans ↔ x ∈ sc.bans.map lower) := by
+  obtain ⟨ch, hch, hm⟩ := view_channel' hc hs hb
+  refine ⟨ch, hch, hm.users_iff, hm.ops.iff, ?_, ?_, hm.topic, ?_, ?_⟩
+  · intro x; exact ⟨hm.halfops.sub x, hm.halfops.sup hmp x⟩
+  · intro x; exact ⟨hm.voices.sub x, hm.voices.sup hmp x⟩
+  · exact hm.modesFull (by simp [Srv.mSynced, hms])
+  · intro x; exact ⟨hm.bans x, hm.bansFull (by simp [Srv.bSynced, hbs]) x⟩
 
 /-- when the bot is no longer on a channel (left, kicked, reconnected) its record of it is gone -/
 theorem view_channel_gone {s : Srv} {b : Bot} (hc : Coupled s b) (k : Str)
@@ -184,10 +204,10 @@ def cfg0 : Cfg :=
   { server := "irc.srv".toList, multiPrefix := true, uhnames := false, extJoin := false, chghost := true, whox := true,
     botNick := "test".toList, botIdent := "limnoria".toList, botHost := "bot.host".toList, namesPerLine := 3 }
 
-/-- do the bot and the server agree on mode letter `m` of channel `k`? -/
+/-- is the bot's idea of mode letter `m` of channel `k` compatible with the server's (equal, or not known yet)? -/
 def modesAgreeAt (s : Srv) (b : Bot) (k : Str) (m : Char) : Bool :=
   match aget s.chans k, aget b.channels k with
-  | some sc, some ch => decide (aget ch.modes m = aget sc.modes m)
+  | some sc, some ch => decide (aget ch.modes m = aget sc.modes m) || decide (aget ch.modes m = none)
   | _, _ => true
 
 theorem modesAgree_of_coupled {s : Srv} {b : Bot} (hc : Coupled s b) (k : Str) (m : Char) : modesAgreeAt s b k m = true := by
@@ -201,7 +221,7 @@ theorem modesAgree_of_coupled {s : Srv} {b : Bot} (hc : Coupled s b) (k : Str) (
     | some ch =>
       rw [hs, hb] at h
       simp only [ChanRel] at h
-      simp [h.2.modes m]
+      rcases h.2.modes m with e | e <;> simp [e]
 
 /-- finding C10-mode-arg-int: `MODE #c +k 0123` stores the key as the number 123 -/
 def intargWitness : List Act :=
